@@ -115,6 +115,13 @@ CHECKS['C20'] = dict(technique='runtime monitoring: reference-model oracle (numb
                   'STD instance object indices). Conflicting sprite ids and unknown names must be errors.',
              note='Modern (th10+) ECL sub names are strings, not numbers, and are outside this property. MSG scripts are located through marker instructions, so every script is referenced at least once.',
              design='3/C20')
+CHECKS['C17'] = dict(technique='runtime monitoring: exhaustive pixel sweep through the real transcoders + byte-for-byte comparison of THTX sections after real extract/compile runs against an independent image-source precedence model',
+             text='Exploration; the pixel dimension of the 8/16-bit formats is exhaustive (in-process through the hooked transcoders, and end to end in 256x256 textures through truanm extract + compile). '
+                  'Generated ANM files with arbitrary texture bytes (every format, sizes 1..64 and some larger, offsets 0..8, duplicate paths) go through extract + compile -i dir, compile -i original.anm (also with '
+                  'all image fields removed from the source) and compile with 2-4 sources (ANM files / directories, -i and #pragma image_source) that carry different bytes; expected textures come from an independent '
+                  'model of the precedence rule.',
+             note='32-bit pixels are sampled (edge values + random). Entries sharing a path in a directory source are only required to equal one of the candidates (the directory holds one file per path).',
+             design='3/C17')
 WIP = {}  # property -> reason (not claimed)
 
 def main():
